@@ -8,6 +8,7 @@ import (
 	"strconv"
 	"strings"
 	"syscall"
+	"time"
 
 	"github.com/fsnotify/fsnotify"
 	"golang.org/x/sys/unix"
@@ -99,6 +100,7 @@ type WatcherRec struct {
 	ClosedRet   int // step at which the first Close call returned (0 = never)
 	cmode       string
 	cstop       int
+	cnap        int
 	nInstBefore int
 	ReaderIdx   int // ordinal of this watcher's reader among the reader tasks
 }
@@ -393,6 +395,10 @@ func (x *Exec) consumer(wr *WatcherRec) {
 			}
 			got++
 			wr.D = append(wr.D, Delivered{Name: e.Name, Op: uint32(e.Op), Str: e.String(), Step: step()})
+			if wr.cnap > 0 && ssim.Choose(100, "nap") < wr.cnap {
+				// away for a while: simulated time passes once nothing else can run
+				ssim.Sleep(3 * time.Second)
+			}
 		case i == ir:
 			e, ok := <-er
 			sl.Done()
@@ -424,6 +430,7 @@ func (x *Exec) startConsumer(wr *WatcherRec) {
 			wr.cmode = cc.Mode
 		}
 		wr.cstop = cc.StopN
+		wr.cnap = cc.Nap
 	}
 	wr.consumer = ssim.Go(fmt.Sprintf("consumer%d", wr.Idx), "consumer", func() {
 		defer ssim.Close(wr.cdone)
